@@ -68,8 +68,10 @@ CHECKS["C06"] = {
                   "(fixed point), (c) all 65536 KNX 16-bit floats are converted there and back",
     "level_note": "no hand-written expected values except the canonical replacement pattern, the calendar weekday and "
                   "the input classification taken from the reference codec (classes the statement does not call "
-                  "lossless are not judged: non-printable strings, partial nulls, values outside a value list, |raw| >= "
-                  "2^24 with a divisor, patterns the reference calls invalid - their acceptance is C05's subject); "
+                  "lossless are not judged: non-printable strings, partial nulls, values outside a value list, "
+                  "patterns the reference calls invalid - their acceptance is C05's subject; for |raw| >= 2^24 with a "
+                  "divisor the re-encoded raw value may drift by 2^-22 relative + 1 instead of being identical, and a "
+                  "rejection is admitted only where that drift leaves the type's range); "
                   "owned bits of the sub-byte kinds are discovered black-box (bits ever set when all values are "
                   "written onto an empty buffer); errno is cleared before each call (C12's subject)",
     "technique": "bounded-exhaustive differential round-trip enumeration of the real decode/encode paths",
